@@ -201,11 +201,12 @@ type applyLog struct {
 	last map[string]uint64
 	done map[string]int // command and delete-key entries whose Apply has returned
 	fwdD int            // key deletions handed to gossip by followers or enqueued by the leader without waiting
+	delKeys map[string][]string // database/key of every delete-key entry a node applied (diagnostics)
 	bad  []string       // an index applied out of order or twice
 }
 
 func newApplyLog() *applyLog {
-	return &applyLog{cmds: map[string]int{}, dels: map[string]int{}, last: map[string]uint64{}, done: map[string]int{}}
+	return &applyLog{cmds: map[string]int{}, dels: map[string]int{}, last: map[string]uint64{}, done: map[string]int{}, delKeys: map[string][]string{}}
 }
 
 func (a *applyLog) handle(name string, args ...any) {
@@ -241,7 +242,11 @@ func (a *applyLog) handle(name string, args ...any) {
 	id, _ := args[0].(string)
 	idx, _ := args[1].(uint64)
 	data, _ := args[2].([]byte)
-	var req struct{ Type string }
+	var req struct {
+		Type     string
+		Database int
+		Key      []byte
+	}
 	_ = json.Unmarshal(data, &req)
 	a.mu.Lock()
 	defer a.mu.Unlock()
@@ -251,6 +256,7 @@ func (a *applyLog) handle(name string, args ...any) {
 	a.last[id] = idx
 	if req.Type == "delete-key" {
 		a.dels[id]++
+		a.delKeys[id] = append(a.delKeys[id], fmt.Sprintf("%d/%s", req.Database, req.Key))
 	} else {
 		a.cmds[id]++
 	}
@@ -329,6 +335,12 @@ func (rr *replRun) observe(ev map[string]any, c0, d0 map[string]int) map[string]
 		ndel[n.ID] = d1[n.ID] - d0[n.ID]
 	}
 	ev["st"], ev["now"], ev["napp"], ev["ndel"], ev["nodes"] = st, now, napp, ndel, rr.ids()
+	if l := rr.c.Leader(); l != nil && d1[l.ID] > d0[l.ID] {
+		rr.al.mu.Lock()
+		ks := rr.al.delKeys[l.ID]
+		ev["delkeys"] = strs(ks[len(ks)-(d1[l.ID]-d0[l.ID]):])
+		rr.al.mu.Unlock()
+	}
 	if l := rr.c.Leader(); l != nil {
 		ev["lead"] = l.ID
 	} else {
@@ -499,14 +511,9 @@ func (rr *replRun) step(cmd []Tok, db int, entry *Node) bool {
 				lost = true
 			}
 		}
-		// key deletions a follower handed to gossip during the step: wait until they reached the log
-		rr.al.mu.Lock()
-		fd := rr.al.fwdD - fwd0
-		rr.al.mu.Unlock()
-		if fd > 0 && !waitFor(20*time.Second, func() bool { _, d1 := rr.al.snapshot(); return d1[lead.ID]-d0[lead.ID] >= fd }) {
+		if lostDel, stuck := rr.settle(lead, d0, fwd0); lostDel {
 			lost = true
-		}
-		if !rr.c.Quiesce(10 * time.Second) {
+		} else if stuck {
 			ev["stuck"] = true
 		}
 	}
@@ -560,6 +567,9 @@ func (rr *replRun) burst(db int) bool {
 	}
 	cli := rr.client(entry, db)
 	c0, d0 := rr.al.snapshot()
+	rr.al.mu.Lock()
+	fwd0 := rr.al.fwdD
+	rr.al.mu.Unlock()
 	wire := make([]string, len(cmd))
 	for i, t := range cmd {
 		wire[i] = rr.c.Ep.Wire(t)
@@ -573,7 +583,7 @@ func (rr *replRun) burst(db int) bool {
 	lost := !waitFor(20*time.Second, func() bool { c1, _ := rr.al.snapshot(); return c1[lead.ID]-c0[lead.ID] >= oks })
 	ev := map[string]any{"ev": "burst", "run": rr.run - 1, "node": entry.ID, "db": strconv.Itoa(db), "cmd": toksJSON(cmd),
 		"times": k, "oks": oks, "lost": lost}
-	if !rr.c.Quiesce(10 * time.Second) {
+	if lostDel, stuck := rr.settle(lead, d0, fwd0); lostDel || stuck {
 		ev["stuck"] = true
 	}
 	rr.prev = rr.observe(ev, c0, d0)
@@ -581,6 +591,36 @@ func (rr *replRun) burst(db int) bool {
 	rr.tot["events"]++
 	rr.tot["bursts"]++
 	return ev["stuck"] == nil && !rr.failed
+}
+
+// settle waits until the step is over on every node: replication has quiesced AND every key deletion that
+// a node enqueued or handed to gossip while applying (followers come across expired entries when THEY apply
+// the entry, after the leader has replied) has reached the log and been applied everywhere.
+func (rr *replRun) settle(lead *Node, d0 map[string]int, fwd0 int) (lostDel bool, stuck bool) {
+	for round := 0; round < 6; round++ {
+		if !rr.c.Quiesce(10 * time.Second) {
+			return false, true
+		}
+		rr.al.mu.Lock()
+		fd := rr.al.fwdD - fwd0
+		rr.al.mu.Unlock()
+		_, d1 := rr.al.snapshot()
+		if d1[lead.ID]-d0[lead.ID] >= fd {
+			// nothing outstanding; one more look after a short pause, for a follower that is just about to forward
+			time.Sleep(3 * time.Millisecond)
+			rr.al.mu.Lock()
+			again := rr.al.fwdD - fwd0
+			rr.al.mu.Unlock()
+			if again == fd {
+				return false, !rr.c.Quiesce(10 * time.Second)
+			}
+			continue
+		}
+		if !waitFor(20*time.Second, func() bool { _, d := rr.al.snapshot(); return d[lead.ID]-d0[lead.ID] >= fd }) {
+			return true, false
+		}
+	}
+	return false, !rr.c.Quiesce(10 * time.Second)
 }
 
 func (rr *replRun) pickEntry(sync bool) *Node {
@@ -670,13 +710,7 @@ func (rr *replRun) program(p Program) bool {
 			case <-time.After(10 * time.Second):
 				ev["hang"] = true
 			}
-			rr.al.mu.Lock()
-			fd := rr.al.fwdD - fwd0
-			rr.al.mu.Unlock()
-			if fd > 0 && !waitFor(20*time.Second, func() bool { _, d1 := rr.al.snapshot(); return d1[lead.ID]-d0[lead.ID] >= fd }) {
-				ev["stuck"] = true
-			}
-			if !rr.c.Quiesce(10 * time.Second) {
+			if lostDel, stuck := rr.settle(lead, d0, fwd0); lostDel || stuck {
 				ev["stuck"] = true
 			}
 			rr.prev = rr.observe(ev, c0, d0)
